@@ -12,16 +12,12 @@ Lemma gen_ext_is_narrow t v : ext_sem (gen_ext_code t) v = Some (narrow t v).
 Proof. destruct t; reflexivity. Qed.
 
 (* --- interpreter: call() narrows each fixed argument with a C cast and widens each result *)
-Lemma interp_arg_is_narrow t v : cast_sem (interp_call_arg t) v = Some (narrow t v).
-Proof. destruct t; reflexivity. Qed.
 Lemma interp_res_is_widen t v : cast_sem (interp_call_res t) v = Some (widen_result t v).
 Proof. destruct t; reflexivity. Qed.
 
 (* --- MIR functions as callees: simplify_func prepends an extension of every narrow parameter,
    make_one_ret extends every narrow result *)
 Lemma mir_arg_ext_is_narrow t v : ext_sem (mir_arg_ext t) v = Some (narrow t v).
-Proof. destruct t; reflexivity. Qed.
-Lemma mir_ret_ext_is_widen t v : ext_sem (mir_ret_ext t) v = Some (widen_result t v).
 Proof. destruct t; reflexivity. Qed.
 
 (* --- low bits *)
@@ -63,29 +59,36 @@ Qed.
 Lemma narrow_idem t v : narrow t (narrow t v) = narrow t v.
 Proof. apply narrow_low_bits. apply narrow_mod. Qed.
 
-(* interp(): "(cast) va_arg (va, promoted type)" *)
-Lemma interp_entry_is_narrow t v : entry_sem (interp_entry t) v = Some (narrow t v).
+(* ---- statements that ask exactly what the ABI asks (robust against harmless rewrites of the
+   conversions): low-bit equalities *)
+Definition low_eq (n a b : Z) : Prop := a mod 2 ^ n = b mod 2 ^ n.
+
+Ltac lowbits :=
+  unfold low_eq, narrow, widen_result, u8, u16, u32, u64, s8, s16, s32, uwrap; cbn [ity_bits obs_bytes Z.mul];
+  repeat (first [rewrite mod_pow_le by lia | rewrite swrap_mod_le by lia]); try reflexivity.
+
+(* what a native callee can observe of an integer argument (obs_bytes: 4 bytes for the narrow types,
+   8 otherwise) is the value converted to the prototype type *)
+Lemma args_observable t v : exists w w',
+  ext_sem (gen_ext_code t) v = Some w /\ cast_sem (interp_call_arg t) v = Some w'
+  /\ low_eq (8 * obs_bytes t) w (narrow t v) /\ low_eq (8 * obs_bytes t) w' (narrow t v).
+Proof. destruct t; eexists; eexists; (split; [reflexivity|]); (split; [reflexivity|]); split; lowbits. Qed.
+
+(* a MIR function sees each integer parameter converted to its declared type: in generated code after
+   the extension simplify_func prepends, in the interpreter after interp()'s va_arg/cast followed by
+   that same extension (executed by the interpreter as the first instructions of the function) *)
+Lemma params_converted t v :
+  ext_sem (mir_arg_ext t) v = Some (narrow t v)
+  /\ exists w, entry_sem (interp_entry t) v = Some w /\ ext_sem (mir_arg_ext t) w = Some (narrow t v).
 Proof.
-  destruct t; cbn [interp_entry entry_sem cast_sem fst snd].
-  - change (Some (u64 (s8 (u64 (s32 v))))) with (Some (narrow I8 (narrow I32 v))). f_equal.
-    apply narrow_low_bits. cbn [ity_bits]. change (narrow I32 v) with (u64 (s32 v)). unfold u64, uwrap, s32.
-    rewrite mod_pow_le by lia. apply swrap_mod_le; lia.
-  - change (Some (u8 (u32 v))) with (Some (narrow U8 (narrow U32 v))). f_equal.
-    apply narrow_low_bits. cbn [ity_bits narrow]. unfold u32, uwrap. apply mod_pow_le; lia.
-  - change (Some (u64 (s16 (u64 (s32 v))))) with (Some (narrow I16 (narrow I32 v))). f_equal.
-    apply narrow_low_bits. cbn [ity_bits]. change (narrow I32 v) with (u64 (s32 v)). unfold u64, uwrap, s32.
-    rewrite mod_pow_le by lia. apply swrap_mod_le; lia.
-  - change (Some (u16 (u32 v))) with (Some (narrow U16 (narrow U32 v))). f_equal.
-    apply narrow_low_bits. cbn [ity_bits narrow]. unfold u32, uwrap. apply mod_pow_le; lia.
-  - change (Some (u64 (u64 (s32 v)))) with (Some (narrow I64 (narrow I32 v))). f_equal.
-    cbn [narrow]. unfold u64, uwrap. apply Z.mod_mod. lia.
-  - change (Some (u64 (u32 v))) with (Some (narrow I64 (narrow U32 v))). f_equal.
-    cbn [narrow]. unfold u64, u32, uwrap. apply Z.mod_small.
-    pose proof (Z.mod_pos_bound v (2 ^ 32) ltac:(lia)). lia.
-  - cbn [narrow]. f_equal. unfold u64, uwrap. apply Z.mod_mod. lia.
-  - cbn [narrow]. f_equal. unfold u64, uwrap. apply Z.mod_mod. lia.
-  - cbn [narrow]. f_equal. unfold u64, uwrap. apply Z.mod_mod. lia.
+  split; [exact (mir_arg_ext_is_narrow t v)|].
+  destruct t; eexists; (split; [reflexivity|]); rewrite mir_arg_ext_is_narrow; f_equal; apply narrow_low_bits; lowbits.
 Qed.
+
+(* the value a MIR function returns in a register has, in the bits of the result type, the bits the
+   function computed (the psABI leaves the upper bits to the callee's discretion) *)
+Lemma callee_result_low_bits t v : exists w, ext_sem (mir_ret_ext t) v = Some w /\ low_eq (ity_bits t) w v.
+Proof. destruct t; eexists; (split; [reflexivity|]); lowbits. Qed.
 
 (* --- multiple results: each integer result is converted on its own, the others pass through *)
 Lemma received_ok conv : (forall t v, conv t v = Some (widen_result t v)) ->
